@@ -510,7 +510,7 @@ func buildPools(rnd *rand.Rand, extra, sliceN int) []pool {
 	ps = append(ps, bs, ss, is, fs, fs32)
 
 	// composite keys: []any with a fixed element type per position, nesting up to depth 3
-	intFew := few(ps[0], 0, 3, 4, 5, 8)                     // min,-1,0,1,max
+	intFew := few(ps[0], 0, 3, 4, 5, 8)                      // min,-1,0,1,max
 	f64Few := few(f64, 0, 3, 6, 8, 9, 11, 14)                // NaN,-Inf,-1,-0,+0,1,+Inf
 	f32Few := few(f32, 0, 6, 8, 9, 11)                       // NaN,-1,-0,+0,1
 	strFew := few(str, 0, 4, 6, 7, 13)                       // "", a, aa, ab, \xff
@@ -736,7 +736,7 @@ func Run(r *report.Run) int {
 	r.Set("observation_unlisted_slice_types_not_asserted", map[string]any{
 		"Compare([]int64{10},[]int64{9})":   btree.Compare([]int64{10}, []int64{9}),
 		"Compare([]uint16{10},[]uint16{9})": btree.Compare([]uint16{10}, []uint16{9}),
-		"note":                               "outside the asserted domain: the statement's 'slices of these' is covered through []any and the typed slices the comparer names",
+		"note":                              "outside the asserted domain: the statement's 'slices of these' is covered through []any and the typed slices the comparer names",
 	})
 	for i, p := range pools {
 		if i == 12 || i == 22 { // float64, a composite pool
